@@ -279,12 +279,9 @@ package avltree
 //@   modifies nothing
 //@   ensures [C17 C18] true
 
-// ---- mutators. Put is verified: its body calls the recursive driver put, whose contract is verified in the thorough tier
-// ---- (further below; its obligations need up to 40 s each) and assumed in the quick tier. Remove is still an ASSUMED
-// ---- (trusted) contract: the proof of remove/removeMin (size is decremented before removeMin runs, the minimum's key and
-// ---- value are copied through *K / *V pointers into the node being deleted, the ghost sequence closes up at the bottom
-// ---- of the recursion) was not completed; it is backed only by the bounded stand-in (/verif/bounded/avl.go.tmpl) and
-// ---- listed under trusted_contracts.
+// ---- mutators. Put and Remove are verified: their bodies call the recursive drivers put / remove (and removeMin), whose
+// ---- contracts are verified in the thorough tier (further below; their obligations need up to a minute each) and assumed
+// ---- in the quick tier. No contract of this package is `trusted` any more.
 
 //@ -- Put: insert or replace. pnew (ghost result) is the position of the entry for `key` afterwards.
 //@ func Tree.Put
@@ -307,7 +304,6 @@ package avltree
 
 //@ -- Remove: delete the entry equivalent to `key`, if any
 //@ func Tree.Remove
-//@   trusted
 //@   modifies tree.Root, tree.size, tree.nodes, tree.rank
 //@   modifies each x like tree.Root where x.tr == tree : x.Children, x.Parent, x.lo, x.hi, x.h, x.b, x.Key, x.Value, x.pos, x.tr
 //@   requires Inv(tree)
@@ -319,6 +315,249 @@ package avltree
 //@     && (forall i :: 0 <= i && i < old(tree.rank[key]) ==> KeyAt(tree, i) == old(KeyAt(tree, i)) && ValAt(tree, i) == old(ValAt(tree, i)))
 //@     && (forall i :: old(tree.rank[key]) <= i && i < tree.size ==> KeyAt(tree, i) == old(KeyAt(tree, i+1)) && ValAt(tree, i) == old(ValAt(tree, i+1)))
 //@   ensures [C01] map: forall k like key :: (Has(tree, k) <==> old(Has(tree, k)) && tree.Comparator(k, key) != 0) && (Has(tree, k) ==> Val(tree, k) == old(Val(tree, k)))
+
+// ---- remove / removeMin: the recursive drivers of Remove (C01, C02, C07). `remove` decrements tree.size before it calls
+// ---- removeMin, so removeMin starts in a state whose ghost sequence is one longer than size: the N-variants of the shape
+// ---- and order predicates take the sequence length as a parameter ----
+//@ pred LCN(t, x, n) := x.tr == t ==> x != nil && x.lo <= x.pos && x.pos <= x.hi && 0 <= x.pos && x.pos < n && t.nodes[x.pos] == x
+//@     && (x.Children[0] == nil ==> x.lo == x.pos) && (x.Children[0] != nil ==> x.Children[0].tr == t && x.Children[0].Parent == x && x.Children[0].lo == x.lo && x.Children[0].hi == x.pos - 1)
+//@     && (x.Children[1] == nil ==> x.hi == x.pos) && (x.Children[1] != nil ==> x.Children[1].tr == t && x.Children[1].Parent == x && x.Children[1].lo == x.pos + 1 && x.Children[1].hi == x.hi)
+//@     && (x.Parent == nil ==> x == t.Root && x.lo == 0 && x.hi == n - 1)
+//@     && (x.Parent != nil ==> x.Parent.tr == t && (x.Parent.Children[0] == x || x.Parent.Children[1] == x))
+//@ pred ShapeInvN(t, n) := t != nil && n >= 0 && (n == 0 <==> t.Root == nil) && (t.Root != nil ==> t.Root.tr == t && t.Root.Parent == nil)
+//@     && (forall x like t.Root :: LCN(t, x, n))
+//@     && (forall i :: 0 <= i && i < n ==> t.nodes[i].tr == t && t.nodes[i].pos == i)
+//@ pred OrderInvN(t, n) := t.Comparator != nil && SWO(t.Comparator, argof(t.Comparator, 0))
+//@     && (forall i, j :: 0 <= i && i < j && j < n ==> t.Comparator(t.nodes[i].Key, t.nodes[j].Key) < 0)
+//@     && (forall k like argof(t.Comparator, 0), i :: 0 <= i && i < n && t.Comparator(k, t.nodes[i].Key) == 0 ==> t.rank[k] == i)
+
+//@ -- the tree a child slot belongs to, and the direction of the slot
+//@ pred ST(qp) := slot_node(qp).tr
+//@ pred SDir(qp) := ite(slot_idx(qp) == 1, 1, 0 - 1)
+
+//@ -- removeMin(qp, minKey, minVal): unlinks the minimum m of the subtree in the child slot qp and copies its key and value
+//@ -- into the node kn that owns *minKey / *minVal, which sits at the position just before the subtree. m leaves the ghost
+//@ -- sequence (positions, intervals and ranks close up); on the way up each level re-balances its slot with removeFix.
+//@ func removeMin
+//@   thorough-only
+//@   budget 2
+//@   requires !slot_isroot(qp) && slot_node(qp) != nil && ST(qp) != nil && deref(qp) != nil
+//@   requires ShapeInvN(ST(qp), ST(qp).size + 1) && OrderInvN(ST(qp), ST(qp).size + 1)
+//@   requires forall x like deref(qp) :: x.tr == ST(qp) ==> Bal(x)
+//@   requires slot_tree(minKey) == slot_tree(minVal) && slot_tree(minKey).tr == ST(qp) && slot_tree(minKey).pos == deref(qp).lo - 1
+//@   decreases deref(qp).hi - deref(qp).lo + 1
+//@   modifies deref(qp), deref(minKey), deref(minVal), ST(qp).nodes, ST(qp).rank
+//@   modifies each x like deref(qp) where x.tr == ST(qp) : x.Children, x.Parent, x.lo, x.hi, x.h, x.b, x.pos, x.tr
+//@   ghostvar pm := 0
+//@   ghostvar T := ST(qp)
+//@   at exit: if old(deref(qp).Children[0]) == nil then pm := old(deref(qp).pos)
+//@   at exit: if old(deref(qp).Children[0]) == nil then all Node.lo := \x like deref(qp) => ite(x.tr == T && x.lo > pm, x.lo - 1, x.lo)
+//@   at exit: if old(deref(qp).Children[0]) == nil then all Node.hi := \x like deref(qp) => ite(x.tr == T && x.hi >= pm, x.hi - 1, x.hi)
+//@   at exit: if old(deref(qp).Children[0]) == nil then all Node.pos := \x like deref(qp) => ite(x.tr == T && x.pos > pm, x.pos - 1, x.pos)
+//@   at exit: if old(deref(qp).Children[0]) == nil then old(deref(qp)).tr := nil
+//@   at exit: if old(deref(qp).Children[0]) == nil then T.nodes := \i => ite(i < pm, T.nodes[i], T.nodes[i+1])
+//@   at exit: if old(deref(qp).Children[0]) == nil then T.rank := \k like deref(minKey) => ite(old(T.rank[k]) >= pm, old(T.rank[k]) - 1, old(T.rank[k]))
+//@   -- after the recursive call: this level's slot still holds q, q is the only stale node
+//@   assert after removeMin#1: ST(qp) == old(ST(qp)) && slot_node(qp).tr == ST(qp) && slot_node(qp) != q && slot_node(qp).Children == old(slot_node(qp).Children) && deref(qp) == q
+//@   assert after removeMin#1: q.tr == ST(qp) && q.Parent == slot_node(qp) && q.Children[1] == old(q.Children[1]) && q.b == old(q.b) && q.h == old(q.h) && q != nil
+//@   assert before removeFix#1: deref(qp) == q && q != nil && q.tr == ST(qp) && arg0 == 1 && ShrankStale(1, q)
+//@   assert before removeFix#1: q.b == 1 ==> q.Children[1] != nil && q.Children[1].tr == ST(qp) && q.Children[1].Parent == q && Bal(q.Children[1])
+//@   assert before removeFix#1: q.b == 1 && q.Children[1].b == 0 - 1 ==> q.Children[1].Children[0] != nil && q.Children[1].Children[0].tr == ST(qp) && Bal(q.Children[1].Children[0]) && q.Children[1].Children[0].Parent == q.Children[1]
+//@   assert before removeFix#1: forall x like deref(qp) :: x.tr == ST(qp) && x != q ==> Bal(x)
+//@   assert before removeFix#1: SlotOK(qp, ST(qp)) && slot_node(qp) != q && q.Parent == slot_node(qp) && slot_node(qp).tr == ST(qp)
+//@   assert before removeFix#1: forall x like deref(qp) :: x != nil && q.Children[1] != nil && q.Children[1].Children[0] != nil && (x == q.Children[1].Children[0].Children[0] || x == q.Children[1].Children[0].Children[1]) ==> x.tr == ST(qp)
+//@   -- parent links are unique: only P points to q, only q to its right child, only that child to its inner child
+//@   assert before removeFix#1: forall x like deref(qp) :: x.tr == ST(qp) && (x.Children[0] == q || x.Children[1] == q) ==> x == slot_node(qp)
+//@   assert before removeFix#1: forall x like deref(qp) :: x.tr == ST(qp) && q.Children[1] != nil && (x.Children[0] == q.Children[1] || x.Children[1] == q.Children[1]) ==> x == q
+//@   assert before removeFix#1: forall x like deref(qp) :: x.tr == ST(qp) && q.Children[1] != nil && q.Children[1].Children[0] != nil && (x.Children[0] == q.Children[1].Children[0] || x.Children[1] == q.Children[1].Children[0]) ==> x == q.Children[1]
+//@   ghostvar hq := 0
+//@   ghostvar bq := 0
+//@   ghostvar r0 := slot_node(qp)
+//@   ghostvar p0 := slot_node(qp)
+//@   at before removeFix#1: hq := q.h
+//@   at before removeFix#1: bq := q.b
+//@   at before removeFix#1: r0 := q.Children[1]
+//@   at before removeFix#1: p0 := ite(q.Children[1] != nil, q.Children[1].Children[0], q.Children[1])
+//@   -- where the nodes lie: P outside q's interval, q's right child and its inner child inside, to the right of q
+//@   assert before removeFix#1: q.lo <= q.pos && q.pos <= q.hi && (slot_node(qp).pos < q.lo || slot_node(qp).pos > q.hi) && (r0 != nil ==> q.pos < r0.lo && r0.lo <= r0.pos && r0.pos <= q.hi && r0.tr == ST(qp))
+//@   assert before removeFix#1: r0 != nil && p0 != nil ==> p0.tr == ST(qp) && r0.lo <= p0.pos && p0.pos < r0.pos
+//@   assert before removeFix#1: (r0 != nil ==> slot_node(qp) != r0 && r0 != q && slot_node(qp).Children[0] != r0 && slot_node(qp).Children[1] != r0) && slot_node(qp).Children[1 - slot_idx(qp)] != q
+//@   assert before removeFix#1: r0 != nil && p0 != nil ==> slot_node(qp) != p0 && p0 != q && p0 != r0 && slot_node(qp).Children[0] != p0 && slot_node(qp).Children[1] != p0
+//@   -- everything removeFix may touch belonged to the tree when this call started (frame)
+//@   assert before removeFix#1: forall x like deref(qp) :: x.tr == ST(qp) ==> old(x.tr) == ST(qp)
+//@   focus frame:call:removeFix#1:* : lemma:before-removeFix*
+//@   assert after removeFix#1: deref(qp) != nil && deref(qp).tr == ST(qp) && Bal(deref(qp)) && deref(qp).h == hq - ite(callresult, 1, 0)
+//@   assert after removeFix#1: slot_node(qp).tr == ST(qp) && deref(qp).Parent == slot_node(qp)
+//@   assert after removeFix#1: slot_node(qp).b == old(slot_node(qp).b) && slot_node(qp).h == old(slot_node(qp).h) && slot_node(qp).Parent == old(slot_node(qp).Parent)
+//@   assert after removeFix#1: slot_node(qp).Children[1 - slot_idx(qp)] == old(slot_node(qp).Children[1 - slot_idx(qp)])
+//@   assert after removeFix#1: forall x like deref(qp) :: x.tr == ST(qp) && x != slot_node(qp) && x != q && x != r0 && x != p0 ==> Bal(x)
+//@   assert after removeFix#1: bq != 1 ==> deref(qp) == q && Bal(q)
+//@   assert after removeFix#1: bq == 1 ==> Bal(q) && Bal(r0)
+//@   assert after removeFix#1: bq == 1 && p0 != nil ==> Bal(p0)
+//@   assert after removeFix#1: forall x like deref(qp) :: x.tr == ST(qp) && x != slot_node(qp) ==> Bal(x)
+//@   assert after removeFix#1: slot_idx(qp) == 0 || slot_idx(qp) == 1
+//@   assert after removeFix#1: old(slot_node(qp).Children[slot_idx(qp)]) == q && hq == old(q.h) && hq >= 1 && hq == old(Hc(slot_node(qp).Children[slot_idx(qp)]))
+//@   assert after removeFix#1: slot_node(qp).Children[slot_idx(qp)] == deref(qp) && Hc(deref(qp)) == hq - ite(callresult, 1, 0)
+//@   assert after removeFix#1: Hc(slot_node(qp).Children[1 - slot_idx(qp)]) == old(Hc(slot_node(qp).Children[1 - slot_idx(qp)]))
+//@   assert after removeFix#1: old(Bal(slot_node(qp)))
+//@   assert after removeFix#1: !callresult ==> Bal(slot_node(qp))
+//@   assert after removeFix#1: callresult ==> ShrankStale(0 - SDir(qp), slot_node(qp))
+//@   -- bottom of the recursion: the key sequence afterwards is the old one with position pm - 1 skipped
+//@   assert exit: old(deref(qp).Children[0]) == nil ==> (forall i :: 0 <= i && i < T.size ==> KeyAt(T, i) == old(KeyAt(T, ite(i < deref(qp).pos - 1, i, i + 1))))
+//@   focus post:shape.10* : pre:*, lemma:exit#*
+//@   ensures [C01 C02 C17] shape: ShapeInv(ST(qp)) && OrderInv(ST(qp)) && ST(qp) == old(ST(qp)) && ST(qp).Comparator == old(ST(qp).Comparator) && ST(qp).size == old(ST(qp).size) && ST(qp).Root == old(ST(qp).Root)
+//@   ensures [C01 C02] seq-before: forall i :: 0 <= i && i < old(deref(qp).lo) - 1 ==> ST(qp).nodes[i] == old(ST(qp).nodes[i]) && KeyAt(ST(qp), i) == old(KeyAt(ST(qp), i)) && ValAt(ST(qp), i) == old(ValAt(ST(qp), i))
+//@   ensures [C01 C02] seq-at: ST(qp).nodes[old(deref(qp).lo) - 1] == slot_tree(minKey) && slot_tree(minKey).Key == old(KeyAt(ST(qp), deref(qp).lo)) && slot_tree(minKey).Value == old(ValAt(ST(qp), deref(qp).lo))
+//@   ensures [C01 C02] seq-after: forall i :: old(deref(qp).lo) <= i && i < ST(qp).size ==> ST(qp).nodes[i] == old(ST(qp).nodes[i+1]) && KeyAt(ST(qp), i) == old(KeyAt(ST(qp), i+1)) && ValAt(ST(qp), i) == old(ValAt(ST(qp), i+1))
+//@   ensures [C01] rank: forall k like deref(minKey) :: ST(qp).rank[k] == ite(old(ST(qp).rank[k]) >= old(deref(qp).lo), old(ST(qp).rank[k]) - 1, old(ST(qp).rank[k]))
+//@   ensures owners: forall x like deref(qp) :: x.tr == old(x.tr) || (old(x.tr) == ST(qp) && x.tr == nil)
+//@   ensures [C07] balance: (forall x like deref(qp) :: x.tr == ST(qp) && x != slot_node(qp) ==> Bal(x)) && (!result ==> Bal(slot_node(qp))) && (result ==> ShrankStale(0 - SDir(qp), slot_node(qp)))
+//@   ensures [C07] parent-kept: slot_node(qp).b == old(slot_node(qp).b) && slot_node(qp).h == old(slot_node(qp).h) && slot_node(qp).Parent == old(slot_node(qp).Parent) && slot_node(qp).Children[1 - slot_idx(qp)] == old(slot_node(qp).Children[1 - slot_idx(qp)]) && slot_node(qp).tr == ST(qp)
+//@   ensures [C07] height: Hc(deref(qp)) == old(Hc(deref(qp))) - ite(result, 1, 0)
+//@   ensures outside: forall x like deref(qp) :: old(x.tr) == ST(qp) && x != slot_node(qp) && (old(x.pos) < old(deref(qp).lo) || old(x.pos) > old(deref(qp).hi)) ==> x.tr == ST(qp) && x.Children == old(x.Children) && x.Parent == old(x.Parent) && x.b == old(x.b) && x.h == old(x.h)
+
+//@ -- positions of the subtree in slot qp (the whole sequence for the root slot), and the slot's membership in tree t
+//@ pred RGapLo(qp, t) := ite(slot_isroot(qp), 0, ite(slot_idx(qp) == 0, slot_node(qp).lo, slot_node(qp).pos + 1))
+//@ pred RGapHi(qp, t) := ite(slot_isroot(qp), t.size - 1, ite(slot_idx(qp) == 0, slot_node(qp).pos - 1, slot_node(qp).hi))
+//@ pred RSlot(qp, t) := (slot_isroot(qp) ==> slot_tree(qp) == t) && (!slot_isroot(qp) ==> slot_node(qp) != nil && slot_node(qp).tr == t)
+
+//@ -- remove(key, qp): the recursive driver of Remove. Nothing changes on the way down; at the node that holds the key either
+//@ -- the node is unlinked (no right child) or its successor is unlinked by removeMin and its key/value copied in; on the way
+//@ -- up each level re-balances its slot with removeFix while its parent's balance factor is still stale.
+//@ func Tree.remove
+//@   thorough-only
+//@   budget 2
+//@   requires Inv(tree) && RSlot(qp, tree)
+//@   requires forall i :: 0 <= i && i < RGapLo(qp, tree) ==> tree.Comparator(key, KeyAt(tree, i)) > 0
+//@   requires forall i :: RGapHi(qp, tree) < i && i < tree.size ==> tree.Comparator(key, KeyAt(tree, i)) < 0
+//@   decreases RGapHi(qp, tree) - RGapLo(qp, tree) + 2
+//@   modifies tree.Root, tree.size, tree.nodes, tree.rank
+//@   modifies each x like tree.Root where x.tr == tree : x.Children, x.Parent, x.lo, x.hi, x.h, x.b, x.Key, x.Value, x.pos, x.tr
+//@   ghostvar pm := 0
+//@   ghostvar hq := 0
+//@   ghostvar bq := 0
+//@   ghostvar sd := 0
+//@   ghostvar r0 := tree.Root
+//@   ghostvar p0 := tree.Root
+//@   -- the node holding the key has no right child: it is unlinked and leaves the ghost sequence
+//@   at exit: if old(deref(qp)) != nil && tree.Comparator(key, old(deref(qp).Key)) == 0 && old(deref(qp).Children[1]) == nil then pm := old(deref(qp).pos)
+//@   at exit: if old(deref(qp)) != nil && tree.Comparator(key, old(deref(qp).Key)) == 0 && old(deref(qp).Children[1]) == nil then all Node.lo := \x like tree.Root => ite(x.tr == tree && x.lo > pm, x.lo - 1, x.lo)
+//@   at exit: if old(deref(qp)) != nil && tree.Comparator(key, old(deref(qp).Key)) == 0 && old(deref(qp).Children[1]) == nil then all Node.hi := \x like tree.Root => ite(x.tr == tree && x.hi >= pm, x.hi - 1, x.hi)
+//@   at exit: if old(deref(qp)) != nil && tree.Comparator(key, old(deref(qp).Key)) == 0 && old(deref(qp).Children[1]) == nil then all Node.pos := \x like tree.Root => ite(x.tr == tree && x.pos > pm, x.pos - 1, x.pos)
+//@   at exit: if old(deref(qp)) != nil && tree.Comparator(key, old(deref(qp).Key)) == 0 && old(deref(qp).Children[1]) == nil then old(deref(qp)).tr := nil
+//@   at exit: if old(deref(qp)) != nil && tree.Comparator(key, old(deref(qp).Key)) == 0 && old(deref(qp).Children[1]) == nil then tree.nodes := \i => ite(i < pm, tree.nodes[i], tree.nodes[i+1])
+//@   at exit: if old(deref(qp)) != nil && tree.Comparator(key, old(deref(qp).Key)) == 0 && old(deref(qp).Children[1]) == nil then tree.rank := \k like key => ite(old(tree.rank[k]) > pm, old(tree.rank[k]) - 1, old(tree.rank[k]))
+//@   -- the key found at q: its rank is q's position
+//@   assert before removeMin#1: tree.Comparator(key, q.Key) == 0 && old(tree.rank[key]) == q.pos && old(Has(tree, key)) && q.tr == tree && q == old(deref(qp))
+//@   assert after removeMin#1: deref(qp) == q && q.tr == tree && q.b == old(q.b) && q.h == old(q.h) && q.Parent == old(q.Parent) && q.Children[0] == old(q.Children[0]) && tree.Root == old(tree.Root)
+//@   assert after removeMin#1: !slot_isroot(qp) ==> slot_node(qp).tr == tree && slot_node(qp) != q && slot_node(qp).Children == old(slot_node(qp).Children) && slot_node(qp).b == old(slot_node(qp).b) && slot_node(qp).h == old(slot_node(qp).h) && slot_node(qp).Parent == old(slot_node(qp).Parent)
+//@   -- the entry sequence after the successor has been moved into q: everything from q's position on moves down by one
+//@   assert after removeMin#1: tree.size == old(tree.size) - 1 && (forall i :: 0 <= i && i < q.pos ==> KeyAt(tree, i) == old(KeyAt(tree, i)) && ValAt(tree, i) == old(ValAt(tree, i)))
+//@   assert after removeMin#1: q.pos == old(q.pos) && old(q.Children[1].lo) == q.pos + 1 && tree.nodes[q.pos] == q && q.Key == old(KeyAt(tree, q.pos + 1)) && q.Value == old(ValAt(tree, q.pos + 1))
+//@   assert after removeMin#1: KeyAt(tree, q.pos) == old(KeyAt(tree, q.pos + 1)) && ValAt(tree, q.pos) == old(ValAt(tree, q.pos + 1))
+//@   assert after removeMin#1: forall i :: q.pos < i && i < tree.size ==> KeyAt(tree, i) == old(KeyAt(tree, i+1)) && ValAt(tree, i) == old(ValAt(tree, i+1))
+//@   assert after removeMin#1: forall i :: q.pos <= i && i < tree.size ==> KeyAt(tree, i) == old(KeyAt(tree, i+1)) && ValAt(tree, i) == old(ValAt(tree, i+1))
+//@   -- descending: the key lies strictly on one side of q
+//@   assert before Tree.remove#1: q == old(deref(qp)) && q != nil && q.tr == tree && (c == 1 || c == 0 - 1) && (c == 1 ==> tree.Comparator(key, q.Key) > 0) && (c == 0 - 1 ==> tree.Comparator(key, q.Key) < 0)
+//@   assert before Tree.remove#1: c == 0 - 1 ==> (forall i :: q.pos <= i && i < tree.size ==> tree.Comparator(key, KeyAt(tree, i)) < 0)
+//@   assert before Tree.remove#1: c == 1 ==> (forall i :: 0 <= i && i <= q.pos ==> tree.Comparator(key, KeyAt(tree, i)) > 0)
+//@   assert after Tree.remove#1: deref(qp) == q && q.tr == tree && q.b == old(q.b) && q.h == old(q.h) && q.Parent == old(q.Parent) && q.Key == old(q.Key) && q.Value == old(q.Value)
+//@   assert after Tree.remove#1: !slot_isroot(qp) ==> slot_node(qp).tr == tree && slot_node(qp) != q && slot_node(qp).Children == old(slot_node(qp).Children) && slot_node(qp).b == old(slot_node(qp).b) && slot_node(qp).h == old(slot_node(qp).h) && slot_node(qp).Parent == old(slot_node(qp).Parent)
+//@   assert before removeFix#1: deref(qp) == q && q != nil && q.tr == tree && Dir(arg0) && ShrankStale(arg0, q)
+//@   assert before removeFix#1: q.b == arg0 ==> q.Children[Side(arg0)] != nil && q.Children[Side(arg0)].tr == tree && q.Children[Side(arg0)].Parent == q && Bal(q.Children[Side(arg0)])
+//@   assert before removeFix#1: q.b == arg0 && q.Children[Side(arg0)].b == 0 - arg0 ==> q.Children[Side(arg0)].Children[1 - Side(arg0)] != nil && q.Children[Side(arg0)].Children[1 - Side(arg0)].tr == tree && Bal(q.Children[Side(arg0)].Children[1 - Side(arg0)]) && q.Children[Side(arg0)].Children[1 - Side(arg0)].Parent == q.Children[Side(arg0)]
+//@   assert before removeFix#1: forall x like tree.Root :: x.tr == tree && x != q ==> Bal(x)
+//@   assert before removeFix#1: SlotOK(qp, tree) && (!slot_isroot(qp) ==> slot_node(qp) != q && q.Parent == slot_node(qp) && slot_node(qp).tr == tree)
+//@   assert before removeFix#1: forall x like tree.Root :: x != nil && q.Children[Side(arg0)] != nil && q.Children[Side(arg0)].Children[1 - Side(arg0)] != nil && (x == q.Children[Side(arg0)].Children[1 - Side(arg0)].Children[0] || x == q.Children[Side(arg0)].Children[1 - Side(arg0)].Children[1]) ==> x.tr == tree
+//@   assert before removeFix#1: forall x like tree.Root :: x.tr == tree && (x.Children[0] == q || x.Children[1] == q) ==> !slot_isroot(qp) && x == slot_node(qp)
+//@   assert before removeFix#1: forall x like tree.Root :: x.tr == tree && q.Children[Side(arg0)] != nil && (x.Children[0] == q.Children[Side(arg0)] || x.Children[1] == q.Children[Side(arg0)]) ==> x == q
+//@   assert before removeFix#1: forall x like tree.Root :: x.tr == tree && q.Children[Side(arg0)] != nil && q.Children[Side(arg0)].Children[1 - Side(arg0)] != nil && (x.Children[0] == q.Children[Side(arg0)].Children[1 - Side(arg0)] || x.Children[1] == q.Children[Side(arg0)].Children[1 - Side(arg0)]) ==> x == q.Children[Side(arg0)]
+//@   at before removeFix#1: hq := q.h
+//@   at before removeFix#1: bq := q.b
+//@   at before removeFix#1: sd := arg0
+//@   at before removeFix#1: r0 := q.Children[Side(arg0)]
+//@   at before removeFix#1: p0 := ite(q.Children[Side(arg0)] != nil, q.Children[Side(arg0)].Children[1 - Side(arg0)], q.Children[Side(arg0)])
+//@   assert before removeFix#1: q.lo <= q.pos && q.pos <= q.hi && (!slot_isroot(qp) ==> slot_node(qp).pos < q.lo || slot_node(qp).pos > q.hi) && (r0 != nil ==> q.lo <= r0.pos && r0.pos <= q.hi && r0.pos != q.pos && r0.tr == tree)
+//@   assert before removeFix#1: r0 != nil && p0 != nil ==> p0.tr == tree && r0.lo <= p0.pos && p0.pos <= r0.hi && p0.pos != r0.pos && q.lo <= p0.pos && p0.pos <= q.hi && p0.pos != q.pos
+//@   assert before removeFix#1: !slot_isroot(qp) ==> (r0 != nil ==> slot_node(qp) != r0 && slot_node(qp).Children[0] != r0 && slot_node(qp).Children[1] != r0) && slot_node(qp).Children[1 - slot_idx(qp)] != q
+//@   assert before removeFix#1: r0 != nil ==> r0 != q
+//@   assert before removeFix#1: r0 != nil && p0 != nil ==> p0 != q && p0 != r0 && (!slot_isroot(qp) ==> slot_node(qp) != p0 && slot_node(qp).Children[0] != p0 && slot_node(qp).Children[1] != p0)
+//@   assert before removeFix#1: forall x like tree.Root :: x.tr == tree ==> old(x.tr) == tree
+//@   focus frame:call:removeFix#1:* : lemma:before-removeFix#1*
+//@   assert after removeFix#1: deref(qp) != nil && deref(qp).tr == tree && Bal(deref(qp)) && deref(qp).h == hq - ite(callresult, 1, 0)
+//@   assert after removeFix#1: !slot_isroot(qp) ==> slot_node(qp).tr == tree && deref(qp).Parent == slot_node(qp)
+//@   assert after removeFix#1: !slot_isroot(qp) ==> slot_node(qp).b == old(slot_node(qp).b) && slot_node(qp).h == old(slot_node(qp).h) && slot_node(qp).Parent == old(slot_node(qp).Parent)
+//@   assert after removeFix#1: !slot_isroot(qp) ==> slot_node(qp).Children[1 - slot_idx(qp)] == old(slot_node(qp).Children[1 - slot_idx(qp)])
+//@   assert after removeFix#1: forall x like tree.Root :: x.tr == tree && !(!slot_isroot(qp) && x == slot_node(qp)) && x != q && x != r0 && x != p0 ==> Bal(x)
+//@   assert after removeFix#1: bq != sd ==> deref(qp) == q && Bal(q)
+//@   assert after removeFix#1: bq == sd ==> Bal(q) && Bal(r0)
+//@   assert after removeFix#1: bq == sd && p0 != nil ==> Bal(p0)
+//@   assert after removeFix#1: forall x like tree.Root :: x.tr == tree && !(!slot_isroot(qp) && x == slot_node(qp)) ==> Bal(x)
+//@   assert after removeFix#1: !slot_isroot(qp) ==> slot_idx(qp) == 0 || slot_idx(qp) == 1
+//@   assert after removeFix#1: !slot_isroot(qp) ==> old(slot_node(qp).Children[slot_idx(qp)]) == q && hq == old(q.h) && hq >= 1 && hq == old(Hc(slot_node(qp).Children[slot_idx(qp)]))
+//@   assert after removeFix#1: hq == old(q.h) && hq >= 1 && hq == old(Hc(deref(qp))) && Hc(deref(qp)) == hq - ite(callresult, 1, 0)
+//@   assert after removeFix#1: !slot_isroot(qp) ==> slot_node(qp).Children[slot_idx(qp)] == deref(qp)
+//@   assert after removeFix#1: !slot_isroot(qp) ==> Hc(slot_node(qp).Children[1 - slot_idx(qp)]) == old(Hc(slot_node(qp).Children[1 - slot_idx(qp)]))
+//@   assert after removeFix#1: !slot_isroot(qp) ==> old(Bal(slot_node(qp)))
+//@   assert after removeFix#1: !slot_isroot(qp) && !callresult ==> Bal(slot_node(qp))
+//@   assert after removeFix#1: !slot_isroot(qp) && callresult ==> ShrankStale(0 - SDir(qp), slot_node(qp))
+//@   assert after removeFix#1: tree.size == old(tree.size) - 1 && (forall i :: 0 <= i && i < old(tree.rank[key]) ==> KeyAt(tree, i) == old(KeyAt(tree, i)) && ValAt(tree, i) == old(ValAt(tree, i)))
+//@   assert after removeFix#1: forall i :: old(tree.rank[key]) <= i && i < tree.size ==> KeyAt(tree, i) == old(KeyAt(tree, i+1)) && ValAt(tree, i) == old(ValAt(tree, i+1))
+//@   focus lemma:after-removeFix#1#9 : lemma:after-removeFix#1#*, lemma:before-removeFix#1#*
+//@   focus lemma:after-removeFix#2#9 : lemma:after-removeFix#2#*, lemma:before-removeFix#2#*
+//@   focus post:present* : lemma:after-removeFix#1#*, lemma:after-removeMin#1#*, lemma:before-removeMin#1#*, pre:*
+//@   assert before removeFix#2: deref(qp) == q && q != nil && q.tr == tree && Dir(arg0) && ShrankStale(arg0, q)
+//@   assert before removeFix#2: q.b == arg0 ==> q.Children[Side(arg0)] != nil && q.Children[Side(arg0)].tr == tree && q.Children[Side(arg0)].Parent == q && Bal(q.Children[Side(arg0)])
+//@   assert before removeFix#2: q.b == arg0 && q.Children[Side(arg0)].b == 0 - arg0 ==> q.Children[Side(arg0)].Children[1 - Side(arg0)] != nil && q.Children[Side(arg0)].Children[1 - Side(arg0)].tr == tree && Bal(q.Children[Side(arg0)].Children[1 - Side(arg0)]) && q.Children[Side(arg0)].Children[1 - Side(arg0)].Parent == q.Children[Side(arg0)]
+//@   assert before removeFix#2: forall x like tree.Root :: x.tr == tree && x != q ==> Bal(x)
+//@   assert before removeFix#2: SlotOK(qp, tree) && (!slot_isroot(qp) ==> slot_node(qp) != q && q.Parent == slot_node(qp) && slot_node(qp).tr == tree)
+//@   assert before removeFix#2: forall x like tree.Root :: x != nil && q.Children[Side(arg0)] != nil && q.Children[Side(arg0)].Children[1 - Side(arg0)] != nil && (x == q.Children[Side(arg0)].Children[1 - Side(arg0)].Children[0] || x == q.Children[Side(arg0)].Children[1 - Side(arg0)].Children[1]) ==> x.tr == tree
+//@   assert before removeFix#2: forall x like tree.Root :: x.tr == tree && (x.Children[0] == q || x.Children[1] == q) ==> !slot_isroot(qp) && x == slot_node(qp)
+//@   assert before removeFix#2: forall x like tree.Root :: x.tr == tree && q.Children[Side(arg0)] != nil && (x.Children[0] == q.Children[Side(arg0)] || x.Children[1] == q.Children[Side(arg0)]) ==> x == q
+//@   assert before removeFix#2: forall x like tree.Root :: x.tr == tree && q.Children[Side(arg0)] != nil && q.Children[Side(arg0)].Children[1 - Side(arg0)] != nil && (x.Children[0] == q.Children[Side(arg0)].Children[1 - Side(arg0)] || x.Children[1] == q.Children[Side(arg0)].Children[1 - Side(arg0)]) ==> x == q.Children[Side(arg0)]
+//@   at before removeFix#2: hq := q.h
+//@   at before removeFix#2: bq := q.b
+//@   at before removeFix#2: sd := arg0
+//@   at before removeFix#2: r0 := q.Children[Side(arg0)]
+//@   at before removeFix#2: p0 := ite(q.Children[Side(arg0)] != nil, q.Children[Side(arg0)].Children[1 - Side(arg0)], q.Children[Side(arg0)])
+//@   assert before removeFix#2: q.lo <= q.pos && q.pos <= q.hi && (!slot_isroot(qp) ==> slot_node(qp).pos < q.lo || slot_node(qp).pos > q.hi) && (r0 != nil ==> q.lo <= r0.pos && r0.pos <= q.hi && r0.pos != q.pos && r0.tr == tree)
+//@   assert before removeFix#2: r0 != nil && p0 != nil ==> p0.tr == tree && r0.lo <= p0.pos && p0.pos <= r0.hi && p0.pos != r0.pos && q.lo <= p0.pos && p0.pos <= q.hi && p0.pos != q.pos
+//@   assert before removeFix#2: !slot_isroot(qp) ==> (r0 != nil ==> slot_node(qp) != r0 && slot_node(qp).Children[0] != r0 && slot_node(qp).Children[1] != r0) && slot_node(qp).Children[1 - slot_idx(qp)] != q
+//@   assert before removeFix#2: r0 != nil ==> r0 != q
+//@   assert before removeFix#2: r0 != nil && p0 != nil ==> p0 != q && p0 != r0 && (!slot_isroot(qp) ==> slot_node(qp) != p0 && slot_node(qp).Children[0] != p0 && slot_node(qp).Children[1] != p0)
+//@   assert before removeFix#2: forall x like tree.Root :: x.tr == tree ==> old(x.tr) == tree
+//@   focus frame:call:removeFix#2:* : lemma:before-removeFix#2*
+//@   assert after removeFix#2: deref(qp) != nil && deref(qp).tr == tree && Bal(deref(qp)) && deref(qp).h == hq - ite(callresult, 1, 0)
+//@   assert after removeFix#2: !slot_isroot(qp) ==> slot_node(qp).tr == tree && deref(qp).Parent == slot_node(qp)
+//@   assert after removeFix#2: !slot_isroot(qp) ==> slot_node(qp).b == old(slot_node(qp).b) && slot_node(qp).h == old(slot_node(qp).h) && slot_node(qp).Parent == old(slot_node(qp).Parent)
+//@   assert after removeFix#2: !slot_isroot(qp) ==> slot_node(qp).Children[1 - slot_idx(qp)] == old(slot_node(qp).Children[1 - slot_idx(qp)])
+//@   assert after removeFix#2: forall x like tree.Root :: x.tr == tree && !(!slot_isroot(qp) && x == slot_node(qp)) && x != q && x != r0 && x != p0 ==> Bal(x)
+//@   assert after removeFix#2: bq != sd ==> deref(qp) == q && Bal(q)
+//@   assert after removeFix#2: bq == sd ==> Bal(q) && Bal(r0)
+//@   assert after removeFix#2: bq == sd && p0 != nil ==> Bal(p0)
+//@   assert after removeFix#2: forall x like tree.Root :: x.tr == tree && !(!slot_isroot(qp) && x == slot_node(qp)) ==> Bal(x)
+//@   assert after removeFix#2: !slot_isroot(qp) ==> slot_idx(qp) == 0 || slot_idx(qp) == 1
+//@   assert after removeFix#2: !slot_isroot(qp) ==> old(slot_node(qp).Children[slot_idx(qp)]) == q && hq == old(q.h) && hq >= 1 && hq == old(Hc(slot_node(qp).Children[slot_idx(qp)]))
+//@   assert after removeFix#2: hq == old(q.h) && hq >= 1 && hq == old(Hc(deref(qp))) && Hc(deref(qp)) == hq - ite(callresult, 1, 0)
+//@   assert after removeFix#2: !slot_isroot(qp) ==> slot_node(qp).Children[slot_idx(qp)] == deref(qp)
+//@   assert after removeFix#2: !slot_isroot(qp) ==> Hc(slot_node(qp).Children[1 - slot_idx(qp)]) == old(Hc(slot_node(qp).Children[1 - slot_idx(qp)]))
+//@   assert after removeFix#2: !slot_isroot(qp) ==> old(Bal(slot_node(qp)))
+//@   assert after removeFix#2: !slot_isroot(qp) && !callresult ==> Bal(slot_node(qp))
+//@   assert after removeFix#2: !slot_isroot(qp) && callresult ==> ShrankStale(0 - SDir(qp), slot_node(qp))
+//@   ensures [C01 C02 C17] shape: ShapeInv(tree) && OrderInv(tree) && tree.Comparator == old(tree.Comparator) && RSlot(qp, tree)
+//@   ensures owners: forall x like tree.Root :: x.tr == old(x.tr) || (old(x.tr) == tree && x.tr == nil)
+//@   ensures [C01 C02] absent: !old(Has(tree, key)) ==> !result && tree.size == old(tree.size) && tree.nodes == old(tree.nodes) && tree.rank == old(tree.rank)
+//@     && (forall i :: 0 <= i && i < tree.size ==> KeyAt(tree, i) == old(KeyAt(tree, i)) && ValAt(tree, i) == old(ValAt(tree, i)))
+//@   ensures [C01 C02] present: old(Has(tree, key)) ==> tree.size == old(tree.size) - 1
+//@     && (forall i :: 0 <= i && i < old(tree.rank[key]) ==> KeyAt(tree, i) == old(KeyAt(tree, i)) && ValAt(tree, i) == old(ValAt(tree, i)))
+//@     && (forall i :: old(tree.rank[key]) <= i && i < tree.size ==> KeyAt(tree, i) == old(KeyAt(tree, i+1)) && ValAt(tree, i) == old(ValAt(tree, i+1)))
+//@   ensures [C01] rank: old(Has(tree, key)) ==> (forall k like key :: tree.rank[k] == ite(old(tree.rank[k]) > old(tree.rank[key]), old(tree.rank[k]) - 1, old(tree.rank[k])))
+//@   ensures [C01] inside: old(Has(tree, key)) ==> old(RGapLo(qp, tree)) <= old(tree.rank[key]) && old(tree.rank[key]) <= old(RGapHi(qp, tree))
+//@   ensures root-kept: !slot_isroot(qp) ==> tree.Root == old(tree.Root)
+//@   ensures [C07] balance: (forall x like tree.Root :: x.tr == tree && !(!slot_isroot(qp) && x == slot_node(qp)) ==> Bal(x)) && (!slot_isroot(qp) && !result ==> Bal(slot_node(qp))) && (!slot_isroot(qp) && result ==> ShrankStale(0 - SDir(qp), slot_node(qp)))
+//@   ensures [C07] parent-kept: !slot_isroot(qp) ==> slot_node(qp).b == old(slot_node(qp).b) && slot_node(qp).h == old(slot_node(qp).h) && slot_node(qp).Parent == old(slot_node(qp).Parent) && slot_node(qp).Children[1 - slot_idx(qp)] == old(slot_node(qp).Children[1 - slot_idx(qp)]) && slot_node(qp).tr == tree && slot_node(qp).Key == old(slot_node(qp).Key) && slot_node(qp).Value == old(slot_node(qp).Value)
+//@   ensures [C07] height: Hc(deref(qp)) == old(Hc(deref(qp))) - ite(result, 1, 0)
+//@   ensures outside: forall x like tree.Root :: old(x.tr) == tree && !(!slot_isroot(qp) && x == slot_node(qp)) && (old(x.pos) < old(RGapLo(qp, tree)) || old(x.pos) > old(RGapHi(qp, tree))) ==> x.tr == tree && x.Children == old(x.Children) && x.Parent == old(x.Parent) && x.b == old(x.b) && x.h == old(x.h) && x.Key == old(x.Key) && x.Value == old(x.Value)
 
 // ---- JSON (C11 round trip, C12 replace / sound / atomic) ----
 
@@ -494,8 +733,8 @@ package avltree
 //@   requires deref(t).tr != nil && ShapeInv(deref(t).tr) && SlotOK(t, deref(t).tr)
 //@   requires deref(t).b == c && deref(t).Children[Side(c)].b == 0 - c ==> deref(t).Children[Side(c)].Children[1 - Side(c)] != nil && Bal(deref(t).Children[Side(c)].Children[1 - Side(c)])
 //@   modifies deref(t)
-//@   modifies each x like deref(t) where x == old(deref(t)) || x == old(deref(t).Children[Side(c)]) || x == old(deref(t).Children[Side(c)].Children[1 - Side(c)]) : x.Children, x.Parent, x.b, x.h, x.lo, x.hi
-//@   modifies each x like deref(t) where old(deref(t).Children[Side(c)] != nil && deref(t).Children[Side(c)].Children[1 - Side(c)] != nil) && (x == old(deref(t).Children[Side(c)].Children[1 - Side(c)].Children[0]) || x == old(deref(t).Children[Side(c)].Children[1 - Side(c)].Children[1])) : x.Parent
+//@   modifies each x like deref(t) where x == old(deref(t)) || (old(deref(t).b) == c && (x == old(deref(t).Children[Side(c)]) || x == old(deref(t).Children[Side(c)].Children[1 - Side(c)]))) : x.Children, x.Parent, x.b, x.h, x.lo, x.hi
+//@   modifies each x like deref(t) where old(deref(t).b) == c && old(deref(t).Children[Side(c)] != nil && deref(t).Children[Side(c)].Children[1 - Side(c)] != nil) && (x == old(deref(t).Children[Side(c)].Children[1 - Side(c)].Children[0]) || x == old(deref(t).Children[Side(c)].Children[1 - Side(c)].Children[1])) : x.Parent
 //@   at exit: if old(deref(t).b) == 0 - c then old(deref(t)).h := old(deref(t).h) - 1
 //@   at exit: if old(deref(t).b) == c && old(deref(t).Children[Side(c)].b) == 0 then old(deref(t)).h := 1 + max(Hc(old(deref(t)).Children[0]), Hc(old(deref(t)).Children[1]))
 //@   at exit: if old(deref(t).b) == c && old(deref(t).Children[Side(c)].b) == 0 then deref(t).h := 1 + max(Hc(deref(t).Children[0]), Hc(deref(t).Children[1]))
@@ -520,6 +759,11 @@ package avltree
 //@   ensures [C07] deref(t) != nil && Bal(deref(t)) && deref(t).h == old(deref(t).h) - ite(result, 1, 0)
 //@   ensures [C07] old(deref(t).b) != c ==> deref(t) == old(deref(t))
 //@   ensures [C07] old(deref(t).b) == c ==> deref(t).Parent == old(deref(t).Parent) && Bal(old(deref(t))) && Bal(old(deref(t).Children[Side(c)]))
+//@   -- what stays as it was (the modifies clause is a static over-approximation)
+//@   ensures other-slot: !slot_isroot(t) ==> slot_node(t).Children[1 - slot_idx(t)] == old(slot_node(t).Children[1 - slot_idx(t)])
+//@   ensures no-rotation: old(deref(t).b) != c ==> (forall x like deref(t) :: x.Children == old(x.Children) || (!slot_isroot(t) && x == slot_node(t))) && (forall x like deref(t) :: x.Parent == old(x.Parent) && x.lo == old(x.lo) && x.hi == old(x.hi)) && (forall x like deref(t) :: x != old(deref(t)) ==> x.b == old(x.b) && x.h == old(x.h))
+//@   ensures single-rotation: old(deref(t).b) == c && old(deref(t).Children[Side(c)].b) != 0 - c ==> deref(t) == old(deref(t).Children[Side(c)]) && (forall x like deref(t) :: x != old(deref(t)) && x != old(deref(t).Children[Side(c)]) ==> x.b == old(x.b) && x.h == old(x.h) && x.lo == old(x.lo) && x.hi == old(x.hi) && (x.Children == old(x.Children) || (!slot_isroot(t) && x == slot_node(t))))
+//@   ensures double-rotation: old(deref(t).b) == c && old(deref(t).Children[Side(c)].b) == 0 - c ==> Bal(deref(t)) && deref(t) == old(deref(t).Children[Side(c)].Children[1 - Side(c)])
 
 //@   ensures [C01 C07] shape: ShapeInv(old(deref(t).tr)) && SameSeq(old(deref(t).tr)) && SlotOK(t, old(deref(t).tr))
 //@   ensures [C07] interval: deref(t).lo == old(deref(t).lo) && deref(t).hi == old(deref(t).hi)
